@@ -72,6 +72,14 @@ type PBase struct {
 
 type Wrapper struct{ Shape }
 
+// Inner is only ever used through mid.Outer by the top packages; zbig calls its method directly.
+type Inner[T any] struct{ v T }
+
+func (i *Inner[T]) Get() T { return i.v }
+
+// Getter is implemented by everything that embeds an Inner[int].
+type Getter interface{ Get() int }
+
 // Lener is implemented by List and by everything that embeds it.
 type Lener interface{ Len() int }
 
@@ -111,6 +119,9 @@ type IntList struct{ *lib.List[int] }
 
 type StrList struct{ lib.List[string] }
 
+// Outer promotes Inner[int].Get: its wrapper calls a shared function of lib.
+type Outer struct{ *lib.Inner[int] }
+
 func Ints() *lib.List[int] {
 	l := &lib.List[int]{}
 	l.Push(1)
@@ -134,7 +145,7 @@ func Total() int { return lib.Sum(1, 2, 3) + int(lib.Sum(1.5, 2.5)) }
 `
 	uses := []string{
 		"\tl := &lib.List[int]{}\n\tl.Push(%d)\n\tn += l.Len() + l.At(0)\n",
-		"\tls := lib.Map(mid.Ints(), func(i int) string { return \"x\" })\n\tn += ls.Len()\n",
+		"\tls := lib.Map(mid.Ints(), func(i int) string { return \"x\" })\n\tn += ls.Len() + %d\n",
 		"\tlp := &lib.List[lib.Point]{}\n\tlp.Push(lib.Point{X: %d})\n\tlp.Each(func(p lib.Point) { n += p.Area() })\n",
 		"\tf := lib.Point{X: %d, Y: 2}.Area\n\tn += f()\n",
 		"\tg := (*lib.Point).Scale\n\tp := &lib.Point{X: %d}\n\tg(p, 2)\n\tn += p.X\n",
@@ -154,15 +165,18 @@ func Total() int { return lib.Sum(1, 2, 3) + int(lib.Sum(1.5, 2.5)) }
 		"\tsl := &mid.StrList{}\n\tvar ln lib.Lener = sl\n\tpush := sl.Push\n\tpush(\"x\")\n\tn += ln.Len() + %d\n",
 		"\tn += len(lib.Chain(%d, 3))\n",
 		"\tn += len(lib.Chain(\"s\", %d))\n",
+		"\tvar gt lib.Getter = mid.Outer{Inner: &lib.Inner[int]{}}\n\tn += gt.Get() + %d\n",
+		"\tot := &mid.Outer{Inner: &lib.Inner[int]{}}\n\tgf := ot.Get\n\tn += gf() + %d\n",
 	)
 	// zbig: a package that takes long to build and needs the INNER shared functions (the
 	// instances and instantiation wrappers the others reach only through an outer shared
-	// function) but not the outer ones; it is built first. A builder that has finished its
+	// function: lib.ChainInner[T], (*lib.Inner[int]).Get) and nothing else that is shared:
+	// the top packages depend on it only transitively. It is built first. A builder that has finished its
 	// own functions but still waits for zbig must keep others waiting as well.
 	{
 		var b strings.Builder
-		b.WriteString("// Package zbig is slow to build.\npackage zbig\n\nimport (\n\t\"example.com/irp/lib\"\n\t\"example.com/irp/mid\"\n)\n\n")
-		b.WriteString("// First needs the inner shared functions.\nfunc First() int {\n\tn := mid.Ints().Len()\n\tls := &lib.List[string]{}\n\tls.Push(\"x\")\n\tn += ls.Len()\n\tn += len(lib.ChainInner([]int{1}, 2)) + len(lib.ChainInner([]string{\"a\"}, 2))\n\treturn n\n}\n\n")
+		b.WriteString("// Package zbig is slow to build.\npackage zbig\n\nimport \"example.com/irp/lib\"\n\n")
+		b.WriteString("// First needs the inner shared functions.\nfunc First() int {\n\tn := (&lib.Inner[int]{}).Get()\n\tn += len(lib.ChainInner([]int{1}, 2)) + len(lib.ChainInner([]string{\"a\"}, 2))\n\treturn n\n}\n\n")
 		nFill := 300 + rng.IntN(300)
 		for k := 0; k < nFill; k++ {
 			fmt.Fprintf(&b, "func fill%d(a, b int) int {\n\tfor i := 0; i < a; i++ {\n\t\tif i%%%d == 0 {\n\t\t\tb += i\n\t\t} else {\n\t\t\tb -= %d\n\t\t}\n\t}\n\tswitch {\n\tcase a > b:\n\t\treturn a\n\tcase a < b:\n\t\treturn b\n\t}\n\treturn a + b\n}\n\n", k, 2+k%5, k)
